@@ -1,33 +1,135 @@
 import JL.Lemmas.Monad
+import JL.Lemmas.C13
 /-!
 # C13 — `map`, `filter` and `reduce` have standard higher-order semantics and scoping
+
+Vocabulary (defined in `JL/Lemmas/C13.lean`):
+* `ev d e := if check e then run e d else M.err` — the lazy parse-then-evaluate of one operand `e` on data `d`
+  (definitionally `apply e d`);
+* `collOf : Json → Option (List Json)` — an array's elements; `null` ↦ `[]`; anything else is not a collection;
+* `parsed e : M Unit` — the parse of the element expression (error if malformed, no trace);
+* `mapData f`, `filterData f`, `reduceData f` — the loops of `src/op/array.rs` over *data* items (model, `JL/Eval.lean`).
+
+The element expression reaches the loops as the closure `fun x => run e x`: the outer data `d` does not occur in it.
 -/
 namespace JL.Props.C13
-open JL Json
+open JL Json JL.Lemmas.C13
+
+/-! ## 1. the three operators as equations in the monad `M` (trace × value/error/panic) -/
+
+/-- **`map`, unfolded.** collection first (parsed lazily, evaluated once on the outer data); it must be an array
+or `null` (⇒ empty); then the element expression is parsed (an error if malformed, even for an empty collection);
+then it is evaluated once per element, in order, *with the element as the whole data*; the results form the array. -/
+theorem map_spec (c e d : Json) (rest : List Json) :
+    run (.obj [("map".toList, .arr (c :: e :: rest))]) d =
+      (do let cv ← ev d c
+          let items ← M.ofOption (collOf cv)
+          parsed e
+          let rs ← mapData (fun x => run e x) items
+          pure (.arr rs)) := run_map c e d rest
+
+/-- the same at the public entry point (`apply` = parse, then evaluate) for the only accepted arity -/
+theorem map_spec_apply (c e d : Json) :
+    apply (.obj [("map".toList, .arr [c, e])]) d =
+      (do let cv ← apply c d
+          let items ← M.ofOption (collOf cv)
+          parsed e
+          let rs ← mapData (fun x => run e x) items
+          pure (.arr rs)) := by
+  unfold apply; rw [check_map, if_pos rfl, run_map]; rfl
+
+/-- **`filter`, unfolded.** as `map`, the loop keeping the elements whose predicate value is truthy -/
+theorem filter_spec (c e d : Json) (rest : List Json) :
+    run (.obj [("filter".toList, .arr (c :: e :: rest))]) d =
+      (do let cv ← ev d c
+          let items ← M.ofOption (collOf cv)
+          parsed e
+          let rs ← filterData (fun x => run e x) items
+          pure (.arr rs)) := run_filter c e d rest
+
+theorem filter_spec_apply (c e d : Json) :
+    apply (.obj [("filter".toList, .arr [c, e])]) d =
+      (do let cv ← apply c d
+          let items ← M.ofOption (collOf cv)
+          parsed e
+          let rs ← filterData (fun x => run e x) items
+          pure (.arr rs)) := by
+  unfold apply; rw [check_filter, if_pos rfl, run_filter]; rfl
+
+/-- **`reduce`, unfolded.** collection, then the initial value (each parsed lazily and evaluated once on the outer
+data, in this order), then the collection must be an array or `null`, then the expression is parsed, then the fold. -/
+theorem reduce_spec (c e i d : Json) (rest : List Json) :
+    run (.obj [("reduce".toList, .arr (c :: e :: i :: rest))]) d =
+      (do let cv ← ev d c
+          let iv ← ev d i
+          let items ← M.ofOption (collOf cv)
+          parsed e
+          reduceData (fun x => run e x) items iv) := run_reduce c e i d rest
+
+theorem reduce_spec_apply (c e i d : Json) :
+    apply (.obj [("reduce".toList, .arr [c, e, i])]) d =
+      (do let cv ← apply c d
+          let iv ← apply i d
+          let items ← M.ofOption (collOf cv)
+          parsed e
+          reduceData (fun x => run e x) items iv) := by
+  unfold apply; rw [check_reduce, if_pos rfl, run_reduce]; rfl
+
+/-! ## 2. the loops are the standard higher-order functions -/
+
+/-- the loop of `map` is the library's in-order monadic map -/
+theorem map_loop_is_mapM (f : Json → M Json) (xs : List Json) : mapData f xs = xs.mapM f := mapData_eq_mapM f xs
+
+/-- the loop of `reduce` is the library's monadic left fold, the step seeing exactly `{accumulator, current}` -/
+theorem reduce_loop_is_foldlM (f : Json → M Json) (xs : List Json) (a : Json) :
+    reduceData f xs a = xs.foldlM (fun acc x => f (reduceCtx acc x)) a := reduceData_eq_foldlM f xs a
+
+/-- for an expression that is a total, trace-free function `g` of its data: `map` is `List.map g` -/
+theorem map_pure (g : Json → Json) (xs : List Json) :
+    mapData (fun x => pure (g x)) xs = pure (xs.map g) := mapData_pure g xs
+
+/-- … `filter` is `List.filter (truthy ∘ g)` -/
+theorem filter_pure (g : Json → Json) (xs : List Json) :
+    filterData (fun x => pure (g x)) xs = pure (xs.filter (truthy ∘ g)) := filterData_pure g xs
+
+/-- … `reduce` is `List.foldl` from the initial value over `{accumulator, current}` -/
+theorem reduce_pure (g : Json → Json) (xs : List Json) (a : Json) :
+    reduceData (fun c => pure (g c)) xs a = pure (xs.foldl (fun acc x => g (reduceCtx acc x)) a) :=
+  reduceData_pure g xs a
 
 /-- `map` keeps the length: one result per element, in order -/
 theorem mapData_length (f : Json → M Json) (xs ys : List Json) (l : List Json) (h : mapData f xs = ⟨l, .ok ys⟩) :
-    ys.length = xs.length := by
-  induction xs generalizing ys l with
-  | nil => simp [mapData] at h; simp [h.2]
-  | cons x xs ih =>
-    simp only [mapData] at h
-    cases hx : f x with | mk lx ox =>
-    cases ox with
-    | ok y =>
-      simp only [hx, M.bind_ok] at h
-      cases hr : mapData f xs with | mk lr or_ =>
-      cases or_ with
-      | ok rs =>
-        simp only [hr, M.bind_ok, M.pure_logs, M.pure_out] at h
-        have := ih rs lr hr
-        injection h with _ h2
-        injection h2 with h2
-        subst h2; simp [this]
-      | err => simp [hr] at h
-      | panic => simp [hr] at h
-    | err => simp [hx] at h
-    | panic => simp [hx] at h
+    ys.length = xs.length := JL.mapData_length f xs ys l h
+
+/-- success of the loop of `map`, completely: position by position the result holds the value of the expression
+on the element at that position; the trace is the concatenation of the per-element traces, in order -/
+theorem mapData_ok_iff (f : Json → M Json) (xs l ys : List Json) :
+    mapData f xs = ⟨l, .ok ys⟩ ↔
+      xs.map (fun x => (f x).out) = ys.map Out.ok ∧ l = xs.flatMap (fun x => (f x).logs) :=
+  JL.mapData_ok_iff f xs l ys
+
+/-- the first failing element decides the outcome of `map`'s loop: the elements before it were evaluated (their
+traces kept), it was evaluated, nothing after it was -/
+theorem mapData_first_err (f : Json → M Json) (pre post : List Json) (x : Json)
+    (hpre : ∀ p ∈ pre, ∃ y, (f p).out = .ok y) (hx : (f x).out = .err) :
+    mapData f (pre ++ x :: post) = ⟨(pre ++ [x]).flatMap (fun x => (f x).logs), .err⟩ :=
+  JL.mapData_first_err f pre post x hpre hx
+
+/-- success of the loop of `filter`, completely: the predicate succeeded on every element; the result is exactly
+`List.filter` by "predicate value is truthy"; the trace is the concatenation of the per-element traces -/
+theorem filterData_ok_iff (f : Json → M Json) (xs l ys : List Json) :
+    filterData f xs = ⟨l, .ok ys⟩ ↔
+      (∀ x ∈ xs, ∃ p, (f x).out = .ok p) ∧ ys = xs.filter (fun x => okTruthy (f x)) ∧
+        l = xs.flatMap (fun x => (f x).logs) := JL.filterData_ok_iff f xs l ys
+
+/-- `filter` yields a subsequence of the collection: the elements themselves, unchanged, in their order -/
+theorem filterData_sublist (f : Json → M Json) (xs l ys : List Json) (h : filterData f xs = ⟨l, .ok ys⟩) :
+    ys.Sublist xs := JL.filterData_sublist f xs l ys h
+
+theorem filterData_first_err (f : Json → M Json) (pre post : List Json) (x : Json)
+    (hpre : ∀ p ∈ pre, ∃ y, (f p).out = .ok y) (hx : (f x).out = .err) :
+    filterData f (pre ++ x :: post) = ⟨(pre ++ [x]).flatMap (fun x => (f x).logs), .err⟩ :=
+  JL.filterData_first_err f pre post x hpre hx
 
 /-- inside `reduce` the data is exactly `{accumulator, current}` — a two-key object, nothing of the outer data -/
 theorem reduce_scope (acc cur : Json) : reduceCtx acc cur = .obj [("accumulator".toList, acc), ("current".toList, cur)] := rfl
@@ -37,7 +139,335 @@ theorem reduce_step (f : Json → M Json) (x : Json) (xs : List Json) (acc : Jso
     reduceData f (x :: xs) acc = (f (reduceCtx acc x) >>= fun a => reduceData f xs a) := rfl
 theorem reduce_nil (f : Json → M Json) (acc : Json) : reduceData f [] acc = ⟨[], .ok acc⟩ := rfl
 
+/-- folding over a concatenation is folding over the first part, then over the second from where the first ended -/
+theorem reduce_append (f : Json → M Json) (xs ys : List Json) (a : Json) :
+    reduceData f (xs ++ ys) a = (reduceData f xs a >>= fun b => reduceData f ys b) := reduceData_append f xs ys a
+
+/-- value of the fold when the expression succeeds on every context, with value `g ctx` -/
+theorem reduce_value (f : Json → M Json) (g : Json → Json) (h : ∀ c, (f c).out = .ok (g c)) (xs : List Json) (a : Json) :
+    (reduceData f xs a).out = .ok (xs.foldl (fun acc x => g (reduceCtx acc x)) a) :=
+  reduceData_out_of_ok f g h xs a
+
+/-! ## 3. success of the whole operation, completely (value *and* trace) -/
+
+/-- **`map` succeeds iff** the collection operand parses and evaluates to an array or `null`, the expression parses
+and succeeds on every element; then the value is the array of the per-element values (same length, same order) and
+the trace is: collection's trace (once), then the per-element traces in order. -/
+theorem map_ok_iff (c e d : Json) (rest l : List Json) (v : Json) :
+    run (.obj [("map".toList, .arr (c :: e :: rest))]) d = ⟨l, .ok v⟩ ↔
+      ∃ lc cv items ys, ev d c = ⟨lc, .ok cv⟩ ∧ collOf cv = some items ∧ check e = true ∧
+        items.map (fun x => (run e x).out) = ys.map Out.ok ∧ v = .arr ys ∧
+        l = lc ++ items.flatMap (fun x => (run e x).logs) := by
+  rw [run_map, M.bind_eq_ok]
+  constructor
+  · rintro ⟨lc, cv, l₂, h1, h2, h3⟩
+    obtain ⟨items, h4, h5, h6⟩ := (coll_bind_eq_ok cv e _ l₂ v).mp h2
+    obtain ⟨l₃, ys, l₄, h7, h8, h9⟩ := M.bind_eq_ok.mp h6
+    obtain ⟨h10, h11⟩ := (JL.mapData_ok_iff _ _ _ _).mp h7
+    obtain ⟨h12, h13⟩ := M.pure_eq_ok.mp h8
+    exact ⟨lc, cv, items, ys, h1, h4, h5, h10, h13.symm, by rw [h3, h9, h12, h11]; simp⟩
+  · rintro ⟨lc, cv, items, ys, h1, h2, h3, h4, h5, h6⟩
+    refine ⟨lc, cv, items.flatMap (fun x => (run e x).logs), h1, ?_, h6⟩
+    rw [coll_bind_of_ok cv e items _ h2 h3, (JL.mapData_ok_iff _ _ _ ys).mpr ⟨h4, rfl⟩, h5]
+    simp
+
+/-- the result of a successful `map` is an array with exactly one entry per element of the collection -/
+theorem map_length (c e d : Json) (rest l : List Json) (v : Json)
+    (h : run (.obj [("map".toList, .arr (c :: e :: rest))]) d = ⟨l, .ok v⟩) :
+    ∃ lc cv items ys, ev d c = ⟨lc, .ok cv⟩ ∧ collOf cv = some items ∧ v = .arr ys ∧ ys.length = items.length := by
+  obtain ⟨lc, cv, items, ys, h1, h2, _, h4, h5, _⟩ := (map_ok_iff c e d rest l v).mp h
+  refine ⟨lc, cv, items, ys, h1, h2, h5, ?_⟩
+  simpa using (congrArg List.length h4).symm
+
+/-- `map` computes `List.map`: if the collection evaluates to the items `xs` and the expression has value `g x`
+on each of them, the result is `xs.map g` -/
+theorem map_values (c e d : Json) (rest lc xs : List Json) (cv : Json) (g : Json → Json)
+    (hc : ev d c = ⟨lc, .ok cv⟩) (hcv : collOf cv = some xs) (he : check e = true)
+    (hg : ∀ x ∈ xs, (run e x).out = .ok (g x)) :
+    run (.obj [("map".toList, .arr (c :: e :: rest))]) d =
+      ⟨lc ++ xs.flatMap (fun x => (run e x).logs), .ok (.arr (xs.map g))⟩ := by
+  rw [map_ok_iff]
+  refine ⟨lc, cv, xs, xs.map g, hc, hcv, he, ?_, rfl, rfl⟩
+  rw [List.map_map]
+  exact List.map_congr_left (fun x hx => by simp [hg x hx])
+
+/-- the first element on which the expression fails decides: the result is that error, the trace is the collection's
+followed by those of the elements up to and including the failing one; later elements are not evaluated -/
+theorem map_first_error (c e d : Json) (rest lc pre post : List Json) (cv x : Json)
+    (hc : ev d c = ⟨lc, .ok cv⟩) (hcv : collOf cv = some (pre ++ x :: post)) (he : check e = true)
+    (hpre : ∀ p ∈ pre, ∃ y, (run e p).out = .ok y) (hx : (run e x).out = .err) :
+    run (.obj [("map".toList, .arr (c :: e :: rest))]) d =
+      ⟨lc ++ (pre ++ [x]).flatMap (fun x => (run e x).logs), .err⟩ := by
+  rw [run_map, hc, M.bind_ok, coll_bind_of_ok cv e _ _ hcv he, JL.mapData_first_err _ pre post x hpre hx]
+  rfl
+
+/-- **`filter` succeeds iff** …; then the value is exactly the sub-list of the collection's elements whose predicate
+value is truthy — the elements themselves — and the trace is the collection's, then the per-element traces. -/
+theorem filter_ok_iff (c e d : Json) (rest l : List Json) (v : Json) :
+    run (.obj [("filter".toList, .arr (c :: e :: rest))]) d = ⟨l, .ok v⟩ ↔
+      ∃ lc cv items, ev d c = ⟨lc, .ok cv⟩ ∧ collOf cv = some items ∧ check e = true ∧
+        (∀ x ∈ items, ∃ p, (run e x).out = .ok p) ∧
+        v = .arr (items.filter (fun x => okTruthy (run e x))) ∧
+        l = lc ++ items.flatMap (fun x => (run e x).logs) := by
+  rw [run_filter, M.bind_eq_ok]
+  constructor
+  · rintro ⟨lc, cv, l₂, h1, h2, h3⟩
+    obtain ⟨items, h4, h5, h6⟩ := (coll_bind_eq_ok cv e _ l₂ v).mp h2
+    obtain ⟨l₃, ys, l₄, h7, h8, h9⟩ := M.bind_eq_ok.mp h6
+    obtain ⟨h10, h11, h14⟩ := (JL.filterData_ok_iff _ _ _ _).mp h7
+    obtain ⟨h12, h13⟩ := M.pure_eq_ok.mp h8
+    exact ⟨lc, cv, items, h1, h4, h5, h10, by rw [← h13, h11], by rw [h3, h9, h12, h14]; simp⟩
+  · rintro ⟨lc, cv, items, h1, h2, h3, h4, h5, h6⟩
+    refine ⟨lc, cv, items.flatMap (fun x => (run e x).logs), h1, ?_, h6⟩
+    rw [coll_bind_of_ok cv e items _ h2 h3, (JL.filterData_ok_iff _ _ _ _).mpr ⟨h4, rfl, rfl⟩, h5]
+    simp
+
+/-- the result of a successful `filter` is a subsequence of the evaluated collection -/
+theorem filter_sublist (c e d : Json) (rest l : List Json) (v : Json)
+    (h : run (.obj [("filter".toList, .arr (c :: e :: rest))]) d = ⟨l, .ok v⟩) :
+    ∃ lc cv items ys, ev d c = ⟨lc, .ok cv⟩ ∧ collOf cv = some items ∧ v = .arr ys ∧ ys.Sublist items := by
+  obtain ⟨lc, cv, items, h1, h2, _, _, h5, _⟩ := (filter_ok_iff c e d rest l v).mp h
+  exact ⟨lc, cv, items, _, h1, h2, h5, List.filter_sublist⟩
+
+/-- `filter` computes `List.filter (truthy ∘ g)` when the predicate has value `g x` on each element `x` -/
+theorem filter_values (c e d : Json) (rest lc xs : List Json) (cv : Json) (g : Json → Json)
+    (hc : ev d c = ⟨lc, .ok cv⟩) (hcv : collOf cv = some xs) (he : check e = true)
+    (hg : ∀ x ∈ xs, (run e x).out = .ok (g x)) :
+    run (.obj [("filter".toList, .arr (c :: e :: rest))]) d =
+      ⟨lc ++ xs.flatMap (fun x => (run e x).logs), .ok (.arr (xs.filter (fun x => truthy (g x))))⟩ := by
+  rw [filter_ok_iff]
+  refine ⟨lc, cv, xs, hc, hcv, he, fun x hx => ⟨_, hg x hx⟩, ?_, rfl⟩
+  congr 1
+  apply List.filter_congr
+  intro x hx
+  simp [okTruthy, hg x hx]
+
+theorem filter_first_error (c e d : Json) (rest lc pre post : List Json) (cv x : Json)
+    (hc : ev d c = ⟨lc, .ok cv⟩) (hcv : collOf cv = some (pre ++ x :: post)) (he : check e = true)
+    (hpre : ∀ p ∈ pre, ∃ y, (run e p).out = .ok y) (hx : (run e x).out = .err) :
+    run (.obj [("filter".toList, .arr (c :: e :: rest))]) d =
+      ⟨lc ++ (pre ++ [x]).flatMap (fun x => (run e x).logs), .err⟩ := by
+  rw [run_filter, hc, M.bind_ok, coll_bind_of_ok cv e _ _ hcv he, JL.filterData_first_err _ pre post x hpre hx]
+  rfl
+
+/-- **`reduce` succeeds iff** the collection and the initial value parse and evaluate (in this order, once each),
+the collection is an array or `null`, the expression parses, and the left fold from the initial value succeeds;
+the trace is: collection, initial value, fold. -/
+theorem reduce_ok_iff (c e i d : Json) (rest l : List Json) (v : Json) :
+    run (.obj [("reduce".toList, .arr (c :: e :: i :: rest))]) d = ⟨l, .ok v⟩ ↔
+      ∃ lc cv li iv items lr, ev d c = ⟨lc, .ok cv⟩ ∧ ev d i = ⟨li, .ok iv⟩ ∧ collOf cv = some items ∧
+        check e = true ∧ reduceData (fun x => run e x) items iv = ⟨lr, .ok v⟩ ∧ l = lc ++ li ++ lr := by
+  rw [run_reduce, M.bind_eq_ok]
+  constructor
+  · rintro ⟨lc, cv, l₂, h1, h2, h3⟩
+    obtain ⟨li, iv, l₃, h4, h5, h6⟩ := M.bind_eq_ok.mp h2
+    obtain ⟨items, h7, h8, h9⟩ := (coll_bind_eq_ok cv e _ l₃ v).mp h5
+    exact ⟨lc, cv, li, iv, items, l₃, h1, h4, h7, h8, h9, by rw [h3, h6, List.append_assoc]⟩
+  · rintro ⟨lc, cv, li, iv, items, lr, h1, h2, h3, h4, h5, h6⟩
+    refine ⟨lc, cv, li ++ lr, h1, ?_, by rw [h6, List.append_assoc]⟩
+    rw [M.bind_eq_ok]
+    exact ⟨li, iv, lr, h2, by rw [coll_bind_of_ok cv e items _ h3 h4, h5], rfl⟩
+
+/-- `reduce` computes `List.foldl` from the evaluated initial value, the step being the expression's value on
+`{accumulator: acc, current: x}` -/
+theorem reduce_values (c e i d : Json) (rest lc li xs : List Json) (cv iv : Json) (g : Json → Json)
+    (hc : ev d c = ⟨lc, .ok cv⟩) (hi : ev d i = ⟨li, .ok iv⟩) (hcv : collOf cv = some xs) (he : check e = true)
+    (hg : ∀ ctx, (run e ctx).out = .ok (g ctx)) :
+    (run (.obj [("reduce".toList, .arr (c :: e :: i :: rest))]) d).out =
+      .ok (xs.foldl (fun acc x => g (reduceCtx acc x)) iv) := by
+  rw [run_reduce, hc, M.bind_ok, hi]
+  simp only [M.bind_ok]
+  rw [coll_bind_of_ok cv e _ _ hcv he]
+  exact reduceData_out_of_ok _ g hg xs iv
+
+/-! ## 4. scoping -/
+
+/-- **scope of `map`.** The outer data influences the result only through the evaluated collection: inside, the
+data is the element (the closure `fun x => run e x` of `map_spec` does not mention `d`). -/
+theorem scope_map (c e d d' : Json) (rest : List Json) (h : ev d c = ev d' c) :
+    run (.obj [("map".toList, .arr (c :: e :: rest))]) d = run (.obj [("map".toList, .arr (c :: e :: rest))]) d' := by
+  rw [run_map, run_map, h]
+
+/-- **scope of `filter`.** -/
+theorem scope_filter (c e d d' : Json) (rest : List Json) (h : ev d c = ev d' c) :
+    run (.obj [("filter".toList, .arr (c :: e :: rest))]) d = run (.obj [("filter".toList, .arr (c :: e :: rest))]) d' := by
+  rw [run_filter, run_filter, h]
+
+/-- **scope of `reduce`.** The outer data influences the result only through the evaluated collection and the
+evaluated initial value: inside, the data is `{accumulator, current}` (see `reduce_scope`). -/
+theorem scope_reduce (c e i d d' : Json) (rest : List Json) (hc : ev d c = ev d' c) (hi : ev d i = ev d' i) :
+    run (.obj [("reduce".toList, .arr (c :: e :: i :: rest))]) d =
+      run (.obj [("reduce".toList, .arr (c :: e :: i :: rest))]) d' := by
+  rw [run_reduce, run_reduce, hc, hi]
+
+/-- in particular a literal collection (an array literal is not an operation: it evaluates to itself on any data)
+makes `map` independent of the outer data altogether -/
+theorem scope_map_literal (xs : List Json) (e d d' : Json) (rest : List Json) :
+    run (.obj [("map".toList, .arr (.arr xs :: e :: rest))]) d =
+      run (.obj [("map".toList, .arr (.arr xs :: e :: rest))]) d' :=
+  scope_map _ _ _ _ _ rfl
+
+/-- inside `map`, `{"var": ""}` is the element: mapping it returns the collection's items -/
+theorem map_var_self (c d : Json) (rest lc xs : List Json) (cv : Json)
+    (hc : ev d c = ⟨lc, .ok cv⟩) (hcv : collOf cv = some xs) :
+    run (.obj [("map".toList, .arr (c :: .obj [("var".toList, .str [])] :: rest))]) d = ⟨lc, .ok (.arr xs)⟩ := by
+  rw [map_values c _ d rest lc xs cv id hc hcv (by decide) (fun x _ => by rw [run_var_self]; rfl)]
+  simp only [run_var_self]
+  simp
+
+/-- inside `filter`, `{"var": ""}` is the element: the truthy items are kept -/
+theorem filter_var_self (c d : Json) (rest lc xs : List Json) (cv : Json)
+    (hc : ev d c = ⟨lc, .ok cv⟩) (hcv : collOf cv = some xs) :
+    run (.obj [("filter".toList, .arr (c :: .obj [("var".toList, .str [])] :: rest))]) d =
+      ⟨lc, .ok (.arr (xs.filter truthy))⟩ := by
+  rw [filter_values c _ d rest lc xs cv id hc hcv (by decide) (fun x _ => by rw [run_var_self]; rfl)]
+  simp only [run_var_self]
+  simp
+
+/-! ## 5. `null` is empty; any other non-array is an error; malformed expression; failing collection -/
+
+theorem null_empty_map (c e d : Json) (rest lc : List Json) (hc : ev d c = ⟨lc, .ok .null⟩) (he : check e = true) :
+    run (.obj [("map".toList, .arr (c :: e :: rest))]) d = ⟨lc, .ok (.arr [])⟩ := by
+  rw [run_map, hc, M.bind_ok, coll_bind_of_ok .null e [] _ rfl he]; simp [mapData]
+
+theorem null_empty_filter (c e d : Json) (rest lc : List Json) (hc : ev d c = ⟨lc, .ok .null⟩) (he : check e = true) :
+    run (.obj [("filter".toList, .arr (c :: e :: rest))]) d = ⟨lc, .ok (.arr [])⟩ := by
+  rw [run_filter, hc, M.bind_ok, coll_bind_of_ok .null e [] _ rfl he]; simp [filterData]
+
+/-- `reduce` over `null` (as over `[]`) is the initial value -/
+theorem null_empty_reduce (c e i d : Json) (rest lc li : List Json) (iv : Json)
+    (hc : ev d c = ⟨lc, .ok .null⟩) (hi : ev d i = ⟨li, .ok iv⟩) (he : check e = true) :
+    run (.obj [("reduce".toList, .arr (c :: e :: i :: rest))]) d = ⟨lc ++ li, .ok iv⟩ := by
+  rw [run_reduce, hc, M.bind_ok, hi]
+  simp only [M.bind_ok]
+  rw [coll_bind_of_ok .null e [] _ rfl he]; simp [reduceData]
+
+/-- a collection value that is neither an array nor `null` is an error (not a panic); the expression is not even parsed -/
+theorem non_array_err_map (c e d : Json) (rest lc : List Json) (cv : Json)
+    (hc : ev d c = ⟨lc, .ok cv⟩) (hcv : collOf cv = none) :
+    run (.obj [("map".toList, .arr (c :: e :: rest))]) d = ⟨lc, .err⟩ := by
+  rw [run_map, hc, M.bind_ok, coll_bind_of_none cv e _ hcv]; simp
+
+theorem non_array_err_filter (c e d : Json) (rest lc : List Json) (cv : Json)
+    (hc : ev d c = ⟨lc, .ok cv⟩) (hcv : collOf cv = none) :
+    run (.obj [("filter".toList, .arr (c :: e :: rest))]) d = ⟨lc, .err⟩ := by
+  rw [run_filter, hc, M.bind_ok, coll_bind_of_none cv e _ hcv]; simp
+
+/-- for `reduce` the initial value has been evaluated by then (its trace is present) -/
+theorem non_array_err_reduce (c e i d : Json) (rest lc li : List Json) (cv iv : Json)
+    (hc : ev d c = ⟨lc, .ok cv⟩) (hi : ev d i = ⟨li, .ok iv⟩) (hcv : collOf cv = none) :
+    run (.obj [("reduce".toList, .arr (c :: e :: i :: rest))]) d = ⟨lc ++ li, .err⟩ := by
+  rw [run_reduce, hc, M.bind_ok, hi]
+  simp only [M.bind_ok]
+  rw [coll_bind_of_none cv e _ hcv]; simp
+
+/-- what is not a collection: exactly booleans, numbers, strings and objects -/
+theorem collOf_none_iff (cv : Json) : collOf cv = none ↔ (cv ≠ .null ∧ ∀ xs, cv ≠ .arr xs) := by
+  cases cv <;> simp [collOf]
+
+/-- a malformed element expression is an error even when the collection is empty (it is parsed before the loop) -/
+theorem malformed_expr_err_map (c e d : Json) (rest lc items : List Json) (cv : Json)
+    (hc : ev d c = ⟨lc, .ok cv⟩) (hcv : collOf cv = some items) (he : check e = false) :
+    run (.obj [("map".toList, .arr (c :: e :: rest))]) d = ⟨lc, .err⟩ := by
+  rw [run_map, hc, M.bind_ok, coll_bind_of_malformed cv e items _ hcv he]; simp
+
+theorem malformed_expr_err_filter (c e d : Json) (rest lc items : List Json) (cv : Json)
+    (hc : ev d c = ⟨lc, .ok cv⟩) (hcv : collOf cv = some items) (he : check e = false) :
+    run (.obj [("filter".toList, .arr (c :: e :: rest))]) d = ⟨lc, .err⟩ := by
+  rw [run_filter, hc, M.bind_ok, coll_bind_of_malformed cv e items _ hcv he]; simp
+
+theorem malformed_expr_err_reduce (c e i d : Json) (rest lc li items : List Json) (cv iv : Json)
+    (hc : ev d c = ⟨lc, .ok cv⟩) (hi : ev d i = ⟨li, .ok iv⟩) (hcv : collOf cv = some items) (he : check e = false) :
+    run (.obj [("reduce".toList, .arr (c :: e :: i :: rest))]) d = ⟨lc ++ li, .err⟩ := by
+  rw [run_reduce, hc, M.bind_ok, hi]
+  simp only [M.bind_ok]
+  rw [coll_bind_of_malformed cv e items _ hcv he]; simp
+
+/-- a failing collection operand is the result; nothing else is parsed or evaluated -/
+theorem collection_err_map (c e d : Json) (rest lc : List Json) (hc : ev d c = ⟨lc, .err⟩) :
+    run (.obj [("map".toList, .arr (c :: e :: rest))]) d = ⟨lc, .err⟩ := by
+  rw [run_map, hc]; rfl
+theorem collection_err_filter (c e d : Json) (rest lc : List Json) (hc : ev d c = ⟨lc, .err⟩) :
+    run (.obj [("filter".toList, .arr (c :: e :: rest))]) d = ⟨lc, .err⟩ := by
+  rw [run_filter, hc]; rfl
+/-- for `reduce` the initial value is then not evaluated at all -/
+theorem collection_err_reduce (c e i d : Json) (rest lc : List Json) (hc : ev d c = ⟨lc, .err⟩) :
+    run (.obj [("reduce".toList, .arr (c :: e :: i :: rest))]) d = ⟨lc, .err⟩ := by
+  rw [run_reduce, hc]; rfl
+/-- a failing initial value: the trace is the collection's then its own; the fold does not start -/
+theorem initial_err_reduce (c e i d : Json) (rest lc li : List Json) (cv : Json)
+    (hc : ev d c = ⟨lc, .ok cv⟩) (hi : ev d i = ⟨li, .err⟩) :
+    run (.obj [("reduce".toList, .arr (c :: e :: i :: rest))]) d = ⟨lc ++ li, .err⟩ := by
+  rw [run_reduce, hc, M.bind_ok, hi]; rfl
+
+/-! ## 6. evaluation order, exactly once (read off the trace) -/
+
+/-- the trace of a successful `map`/`filter` is the collection operand's trace, once, followed by the element
+expression's trace on each item, once each, in order — nothing else -/
+theorem trace_map (c e d : Json) (rest l : List Json) (v : Json)
+    (h : run (.obj [("map".toList, .arr (c :: e :: rest))]) d = ⟨l, .ok v⟩) :
+    ∃ cv items, (ev d c).out = .ok cv ∧ collOf cv = some items ∧
+      l = (ev d c).logs ++ items.flatMap (fun x => (run e x).logs) := by
+  obtain ⟨lc, cv, items, ys, h1, h2, _, _, _, h6⟩ := (map_ok_iff c e d rest l v).mp h
+  exact ⟨cv, items, by rw [h1], h2, by rw [h1]; exact h6⟩
+
+theorem trace_filter (c e d : Json) (rest l : List Json) (v : Json)
+    (h : run (.obj [("filter".toList, .arr (c :: e :: rest))]) d = ⟨l, .ok v⟩) :
+    ∃ cv items, (ev d c).out = .ok cv ∧ collOf cv = some items ∧
+      l = (ev d c).logs ++ items.flatMap (fun x => (run e x).logs) := by
+  obtain ⟨lc, cv, items, h1, h2, _, _, _, h6⟩ := (filter_ok_iff c e d rest l v).mp h
+  exact ⟨cv, items, by rw [h1], h2, by rw [h1]; exact h6⟩
+
+/-- the trace of a successful `reduce`: collection (once), then initial value (once), then the fold -/
+theorem trace_reduce (c e i d : Json) (rest l : List Json) (v : Json)
+    (h : run (.obj [("reduce".toList, .arr (c :: e :: i :: rest))]) d = ⟨l, .ok v⟩) :
+    ∃ cv iv items, (ev d c).out = .ok cv ∧ (ev d i).out = .ok iv ∧ collOf cv = some items ∧
+      l = (ev d c).logs ++ (ev d i).logs ++ (reduceData (fun x => run e x) items iv).logs := by
+  obtain ⟨lc, cv, li, iv, items, lr, h1, h2, h3, _, h5, h6⟩ := (reduce_ok_iff c e i d rest l v).mp h
+  exact ⟨cv, iv, items, by rw [h1], by rw [h2], h3, by rw [h1, h2, h5]; exact h6⟩
+
+/-! ## non-vacuity -/
+
+-- outer data is invisible inside `map`
 example : apply (.obj [("map".toList, .arr [.arr [.num (.pos 1), .num (.pos 2)], .obj [("var".toList, .str "outer".toList)]])])
     (.obj [("outer".toList, .num (.pos 9))]) = ⟨[], .ok (.arr [.null, .null])⟩ := by decide +kernel
+
+-- a computed collection, a logging element expression: the trace is collection first, then per element in order
+example : apply (.obj [("map".toList, .arr [.obj [("log".toList, .obj [("var".toList, .str "xs".toList)])],
+      .obj [("log".toList, .obj [("var".toList, .str [])])]])])
+    (.obj [("xs".toList, .arr [.num (.pos 1), .str "a".toList])]) =
+    ⟨[.arr [.num (.pos 1), .str "a".toList], .num (.pos 1), .str "a".toList], .ok (.arr [.num (.pos 1), .str "a".toList])⟩ := by
+  decide +kernel
+
+-- `filter` keeps the elements themselves (here: by truthiness of the element)
+example : apply (.obj [("filter".toList, .arr [.arr [.num (.pos 0), .str "a".toList, .null, .arr [], .obj []],
+      .obj [("var".toList, .str [])]])]) .null = ⟨[], .ok (.arr [.str "a".toList, .obj []])⟩ := by decide +kernel
+
+-- `reduce` with a non-commutative step (`cat`): left to right from the initial value
+example : apply (.obj [("reduce".toList, .arr [.arr [.str "b".toList, .str "c".toList],
+      .obj [("cat".toList, .arr [.obj [("var".toList, .str "accumulator".toList)], .obj [("var".toList, .str "current".toList)]])],
+      .str "a".toList])]) .null = ⟨[], .ok (.str "abc".toList)⟩ := by decide +kernel
+
+-- outer data with the keys `current`/`accumulator` is not what the step sees
+example : apply (.obj [("reduce".toList, .arr [.arr [.num (.pos 5)], .obj [("var".toList, .str "current".toList)], .num (.pos 0)])])
+    (.obj [("accumulator".toList, .num (.pos 7)), ("current".toList, .num (.pos 8))]) = ⟨[], .ok (.num (.pos 5))⟩ := by decide +kernel
+
+-- null collection; non-array collection; malformed expression with an empty collection
+example : apply (.obj [("map".toList, .arr [.null, .num (.pos 1)])]) .null = ⟨[], .ok (.arr [])⟩ := by decide +kernel
+example : apply (.obj [("filter".toList, .arr [.str "ab".toList, .bool true])]) .null = ⟨[], .err⟩ := by decide +kernel
+example : apply (.obj [("map".toList, .arr [.arr [], .obj [("==".toList, .arr [.num (.pos 1)])]])]) .null = ⟨[], .err⟩ := by decide +kernel
+
+-- the hypotheses of `map_values` are met by a computed collection
+example : ev (.obj [("xs".toList, .arr [.num (.pos 1)])]) (.obj [("var".toList, .str "xs".toList)]) = ⟨[], .ok (.arr [.num (.pos 1)])⟩ ∧
+    collOf (.arr [.num (.pos 1)]) = some [.num (.pos 1)] ∧ check (.obj [("var".toList, .str [])]) = true := by decide +kernel
+
+-- `scope_map`: two different outer data with the same evaluated collection
+example : ev (.obj [("xs".toList, .arr [.null]), ("y".toList, .num (.pos 1))]) (.obj [("var".toList, .str "xs".toList)]) =
+    ev (.obj [("xs".toList, .arr [.null]), ("y".toList, .num (.pos 2))]) (.obj [("var".toList, .str "xs".toList)]) := by decide +kernel
+
+-- first failing element: the earlier element's log line is kept, the later element is not evaluated
+example : apply (.obj [("map".toList, .arr [.arr [.num (.pos 1), .obj [], .num (.pos 3)],
+      .obj [("log".toList, .obj [("+".toList, .arr [.obj [("var".toList, .str [])]])])]])]) .null =
+    ⟨[.num (.pos 1)], .err⟩ := by decide +kernel
 
 end JL.Props.C13
